@@ -90,6 +90,7 @@ struct ChunkRes { uint64_t eval = 0, nt = 0; std::string fail_case, fail_msg; st
 
 // enumerate a chunk inside the sandbox.  len 1: all; len 2: all with first==a; len 3: first==a
 // mode3: 0 = unordered triples a<=b<=c in orders (a,b,c),(c,b,a),(b,c,a) ; 1 = all ordered triples
+static bool thorough_orders = false;
 static ChunkRes run_chunk(int type, int len, int a, int mode3) {
 	ChunkRes cr;
 	SbxResult r = sandbox([&](Out &o) {
@@ -109,7 +110,7 @@ static ChunkRes run_chunk(int type, int len, int a, int mode3) {
 			for (int b = a; b <= hi; b++) for (int c = b; c <= hi; c++) {
 				v[0] = a; v[1] = b; v[2] = c; one(v, 3);
 				if (a != c) { v[0] = c; v[1] = b; v[2] = a; one(v, 3); }
-				if (a != b || b != c) { v[0] = b; v[1] = c; v[2] = a; one(v, 3); }
+				if (thorough_orders && (a != b || b != c)) { v[0] = b; v[1] = c; v[2] = a; one(v, 3); }
 			}
 		}
 		o.printf("%llu %llu\n", (unsigned long long)ev, (unsigned long long)nt);
